@@ -187,7 +187,7 @@ fn gen_sampled_session(rng: &mut Rng) -> SenderScn {
     let mut ops = Vec::new();
     // (a third of the two-object sessions add and publish the second object later: a second FDT instance, which the
     // receiver may get only after the packets of the object it announces)
-    let later = n == 2 && rng.chance(0.35);
+    let later = n == 2 && rng.chance(0.5);
     for i in 0..n {
         if !(later && i == 1) {
             ops.push(TimedOp { when: When::AtUs(0), op: Op::Add(i) });
@@ -265,7 +265,16 @@ pub fn gen(idx: u64, tier: Tier, rng: &mut Rng) -> Scn {
     };
     let retime = if rng.chance(0.2) { Some(*rng.pick(&[(8u64, 1000u64), (50, 5000), (3, 100)])) } else { None };
     let clock_offset_s = if sender.spec.fdt_inband_sct && rng.chance(0.15) { *rng.pick(&[2400i64, -2400, 18_000, -86_400, 31_536_000, -31_536_000]) } else { 0 };
-    let every_first_tx = rng.chance(0.5);
+    let mut loss = loss;
+    let mut every_first_tx = rng.chance(0.5);
+    // sessions with several publications: more often than not the first transmission of every instance is lost
+    if sender.ops.iter().filter(|t| t.op == Op::Publish).count() > 1 && rng.chance(0.6) {
+        every_first_tx = rng.chance(0.8);
+        match &mut loss {
+            Loss::Sampled { drop_first_fdt, .. } | Loss::Threshold { drop_first_fdt, .. } => *drop_first_fdt = true,
+            _ => {}
+        }
+    }
     Scn { sender, recv, loss, retime, clock_offset_s, every_first_tx }
 }
 
